@@ -120,6 +120,24 @@ func runC19(c *Ctx) {
 			c.Emit("c19.line", vF(a)+" "+vF(b)+" "+F(r)+" "+vF(p), F(f(p)))
 			c.Emit("c19.holds.line", vF(a)+" "+vF(b)+" "+F(r)+" "+vF(p)+" "+F(f(p)), "true")
 			lip(f, p, q)
+			// the same at other SCALES: very short and very long segments (an absolute epsilon on a length or a
+			// squared length shows only there), samples around the far end
+			if k%4 == 0 {
+				sc := []float64{1e-5, 3e-4, 8e-4, 1e-2, 1e3}[c.Rng.Intn(5)]
+				ta := ctr
+				tb := ctr.Add(c.unit3().Scale(sc))
+				tr := sc * (0.1 + c.Rng.Float64()*0.5)
+				tf := sdf.Line(ta, tb, tr)
+				for _, tp := range []vector3.Float64{
+					tb.Add(tb.Sub(ta).Scale(0.1 + c.Rng.Float64()*0.3)), // just beyond the far end, on the axis
+					tb.Add(c.pt(sc * 0.4)),                               // around the far end
+					ta.Add(tb).Scale(0.5).Add(c.pt(sc)),                  // around the middle
+				} {
+					c.Emit("c19.line", vF(ta)+" "+vF(tb)+" "+F(tr)+" "+vF(tp), F(tf(tp)))
+					c.Emit("c19.holds.line_scaled", vF(ta)+" "+vF(tb)+" "+F(tr)+" "+vF(tp)+" "+F(tf(tp)), "true")
+				}
+				c.Note("line.scaled")
+			}
 		}
 		// plane
 		{
